@@ -172,6 +172,16 @@ fn nworkers() -> usize {
 
 pub fn run(prop: &str, tier: Tier) -> i32 {
     let t0 = Instant::now();
+    // last line of defence against a subject that never returns inside an engine that runs it in-process (E2, E3): no verdict, exit 2
+    {
+        let (prop, limit) = (prop.to_string(), Duration::from_secs(std::env::var("VH_HARD_LIMIT_S").ok().and_then(|s| s.parse().ok()).unwrap_or(match tier { Tier::Quick => 900, Tier::Thorough => 7200 })));
+        std::thread::spawn(move || {
+            std::thread::sleep(limit);
+            println!("ENGINE-ERROR: property={prop} the run did not end within {} s (an operation of the subject never returned, or the machine is overloaded); no verdict", limit.as_secs());
+            let _ = std::io::stdout().flush();
+            std::process::exit(2);
+        });
+    }
     let mut defs = registry::scenarios(prop, tier);
     let mut cfgs = registry::seq_configs(prop, tier);
     // maintenance: VH_ONLY=<substring> restricts the run to matching scenarios / configurations
@@ -337,7 +347,8 @@ fn run_e1(prop: &str, tier: Tier, defs: Vec<ScenarioDef>, t0: Instant) -> Report
         if let Some(e) = &r.error { rep.engine_errors.push(format!("{}: {}", d.id(), e)) }
         if let Some(c) = &r.crashed {
             // a crash of the subject inside a controlled execution is a memory-safety / abort violation of the property
-            rep.violations.push(Viol { family: d.family.clone(), rung: d.rung.clone(), kind: "crash".into(), detail: c.clone(),
+            // (a hang: the watchdog of the worker aborted an execution that did not end)
+            rep.violations.push(Viol { family: d.family.clone(), rung: d.rung.clone(), kind: if c.contains("HUNG ") { "hang" } else { "crash" }.into(), detail: c.clone(),
                                        replay: json!({"engine": "mcx", "scenario": d.id(), "tier": tier.name(), "note": c}) });
         }
         for (kind, detail, choices, b) in &r.found {
@@ -420,7 +431,7 @@ fn worker_driver(w: usize, exe: &std::path::Path, prop: &str, tier: Tier, ids: &
             let status = child.wait().map(|s| format!("{s}")).unwrap_or_default();
             let last = std::fs::read_to_string(&marker).unwrap_or_default();
             let mut r = JobResult::default();
-            r.crashed = Some(format!("worker process died ({status}) while executing {last}"));
+            r.crashed = Some(if last.starts_with("HUNG ") { format!("an execution did not end (30 s of CPU, or 300 s, without reaching its end; verdict and teardown of the subject included): {}", last.trim_end()) } else { format!("worker process died ({status}) while executing {last}") });
             results.lock().unwrap().push((job, r));
             child = spawn();
             stdin = child.stdin.take().unwrap();
@@ -434,10 +445,43 @@ fn worker_driver(w: usize, exe: &std::path::Path, prop: &str, tier: Tier, ids: &
 
 // ------------------------------------------------------------------------------------------------ E1 worker
 
+/// Hang watchdog of a worker process. `HEARTBEAT` moves at the start of every execution; while `ARMED`, an execution (including the
+/// verdict and the teardown of the subject) that burns 30 s of CPU, or lasts 300 s, without the next one starting cannot be a legal
+/// one (executions are capped at 20 000 steps of microseconds each): the marker is prefixed with HUNG and the process aborts, which
+/// the master attributes to that execution.
+static HEARTBEAT: std::sync::atomic::AtomicU64 = std::sync::atomic::AtomicU64::new(0);
+static ARMED: std::sync::atomic::AtomicBool = std::sync::atomic::AtomicBool::new(false);
+fn cpu_seconds() -> f64 {
+    let mut ts = libc::timespec { tv_sec: 0, tv_nsec: 0 };
+    unsafe { libc::clock_gettime(libc::CLOCK_PROCESS_CPUTIME_ID, &mut ts) };
+    ts.tv_sec as f64 + ts.tv_nsec as f64 * 1e-9
+}
+fn spawn_watchdog(marker_path: Option<String>) {
+    use std::sync::atomic::Ordering::SeqCst;
+    let cpu_limit: f64 = std::env::var("VH_HANG_CPU_S").ok().and_then(|s| s.parse().ok()).unwrap_or(30.0);
+    let wall_limit: f64 = std::env::var("VH_HANG_WALL_S").ok().and_then(|s| s.parse().ok()).unwrap_or(300.0);
+    std::thread::spawn(move || {
+        let (mut last, mut cpu0, mut t0) = (HEARTBEAT.load(SeqCst), cpu_seconds(), Instant::now());
+        loop {
+            std::thread::sleep(Duration::from_millis(500));
+            let hb = HEARTBEAT.load(SeqCst);
+            if hb != last || !ARMED.load(SeqCst) { last = hb; cpu0 = cpu_seconds(); t0 = Instant::now(); continue }
+            if cpu_seconds() - cpu0 > cpu_limit || t0.elapsed().as_secs_f64() > wall_limit {
+                if let Some(p) = &marker_path {
+                    let old = std::fs::read_to_string(p).unwrap_or_default();
+                    let _ = std::fs::write(p, format!("HUNG {}", old.trim_end()));
+                }
+                std::process::abort();
+            }
+        }
+    });
+}
+
 pub fn worker() {
     mcx::install();
     let marker_path = std::env::var("VH_MARKER").ok();
     let marker_file = marker_path.as_ref().and_then(|p| std::fs::OpenOptions::new().create(true).write(true).truncate(true).open(p).ok());
+    spawn_watchdog(marker_path.clone());
     let stdin = std::io::stdin();
     let mut cache: Option<(String, Tier, Vec<ScenarioDef>)> = None;
     for line in stdin.lock().lines() {
@@ -462,7 +506,9 @@ pub fn worker() {
         let make = def.make.clone();
         let deadline = Instant::now() + budget;
         let scen_s = scen.to_string();
+        ARMED.store(true, std::sync::atomic::Ordering::SeqCst);
         let (stats, found, err) = mcx::explore(&*make, bound, shard, nshards, Some(deadline), 2, |prefix| {
+            HEARTBEAT.fetch_add(1, std::sync::atomic::Ordering::SeqCst);
             if let Some(f) = &marker_file {
                 use std::os::unix::fs::FileExt;
                 let s = format!("{scen_s} bound={bound} prefix={:?}\n{:200}", prefix, "");
@@ -473,6 +519,7 @@ pub fn worker() {
         let mut found_json = Vec::new();
         let mut error = err;
         for f in found {
+            HEARTBEAT.fetch_add(1, std::sync::atomic::Ordering::SeqCst);
             match mcx::replay_check(&*make, &f.choices) {
                 Ok(_) => found_json.push(json!({"kind": f.kind, "detail": f.detail, "choices": f.choices, "bound": f.bound})),
                 Err(e) => { error = Some(e); }
@@ -484,6 +531,7 @@ pub fn worker() {
             "hashes": stats.outcome_hashes.iter().take(4000).map(|h| format!("{h:x}")).collect::<Vec<_>>(),
             "samples": stats.samples, "found": found_json, "error": error,
         });
+        ARMED.store(false, std::sync::atomic::Ordering::SeqCst);
         println!("{}", out);
         let _ = std::io::stdout().flush();
     }
